@@ -149,8 +149,8 @@ impl<'a> Gen<'a> {
                 let fname = self.unique_name(FIELD_NAMES, &fnames);
                 fnames.insert(fname.clone());
                 let recursive = !codata && i > 0 && self.rng.chance(1, 5);
-                let ty = if recursive { selfty.clone() } else { self.template_ty(np, idx, 1) };
-                let cns = self.cfg.cns_fields && !recursive && (codata || i > 0) && self.rng.chance(1, 12);
+                let cns = self.cfg.cns_fields && !recursive && (codata || i > 0) && self.rng.chance(1, 10);
+                let ty = if recursive { selfty.clone() } else if cns && self.rng.chance(1, 2) { TyT::Int } else { self.template_ty(np, idx, 1) };
                 fields.push(Field { name: fname, cns, ty });
             }
             let ret = if codata {
